@@ -22,8 +22,8 @@ pub enum Target {
 
 #[derive(Clone, Debug, Hash, Serialize, Deserialize, PartialEq, Eq)]
 pub enum Fault {
-    /// rewrite a segment to `to` fields (2, 3, 6, 7, 12)
-    Arity { seg: u16, to: u8 },
+    /// rewrite a segment to `to` fields (2, 3, 6, 7, 12, and counts around 256, 512, 1024, 4096)
+    Arity { seg: u16, to: u16 },
     /// make a 1-field segment a 4-/5-field one pointing at index 0 of an *empty* array
     Promote { seg: u16 },
     SrcIndex { seg: u16, target: Target },
@@ -266,6 +266,28 @@ fn check(c: &Case, obs: &mut Obs) -> Verdict {
         }
         Err(p) => return Verdict::Fail(format!("decoding faulted mappings {text:?}: {p}")),
     }
+    // the same faulted document embedded in index sections (with and without a url, nested)
+    let inner = faulted.to_json_no_header();
+    for (k, wrapped) in [
+        format!("{{\"version\":3,\"sections\":[{{\"offset\":{{\"line\":0,\"column\":0}},\"map\":{inner}}}]}}"),
+        format!("{{\"version\":3,\"sections\":[{{\"offset\":{{\"line\":1,\"column\":2}},\"url\":\"http://h/s.map\",\"map\":{inner}}}]}}"),
+        format!("{{\"version\":3,\"sections\":[{{\"offset\":{{\"line\":0,\"column\":0}},\"map\":{{\"version\":3,\"sections\":[{{\"offset\":{{\"line\":0,\"column\":0}},\"url\":\"u\",\"map\":{inner}}}]}}}}]}}"),
+    ]
+    .iter()
+    .enumerate()
+    {
+        match guard(|| decode_slice(wrapped.as_bytes())) {
+            Ok(Err(_)) => {}
+            Ok(Ok(_)) => {
+                return Verdict::Fail(format!(
+                    "malformed mappings {text:?} ({why:?}) are accepted when the map is embedded in an index section (wrapping {k}: {})",
+                    ["plain section", "section with url", "nested section with url"][k]
+                ))
+            }
+            Err(p) => return Verdict::Fail(format!("decoding wrapped faulted mappings: {p}")),
+        }
+    }
+    obs.class("also-embedded-in-index-sections");
     // the faulty segments go through the public VLQ parser as well
     for seg in text.split([',', ';']) {
         if seg.is_empty() {
@@ -321,7 +343,7 @@ fn foreign_char() -> BoxedStrategy<char> {
 
 fn fault() -> BoxedStrategy<Fault> {
     prop_oneof![
-        3 => (any::<u16>(), proptest::sample::select(vec![2u8, 3, 6, 7, 12])).prop_map(|(seg, to)| Fault::Arity { seg, to }),
+        3 => (any::<u16>(), proptest::sample::select(vec![2u16, 3, 6, 7, 12, 64, 255, 256, 257, 260, 261, 512, 513, 516, 1024, 4100])).prop_map(|(seg, to)| Fault::Arity { seg, to }),
         1 => any::<u16>().prop_map(|seg| Fault::Promote { seg }),
         3 => (any::<u16>(), target()).prop_map(|(seg, target)| Fault::SrcIndex { seg, target }),
         3 => (any::<u16>(), target()).prop_map(|(seg, target)| Fault::NameIndex { seg, target }),
